@@ -125,6 +125,8 @@ def get_type_vars_of_parametrized(tp: TypeHint) -> VarTuple[TypeVar]:
         return ()
     if strip_alias(tp) != tp and get_generic_args(tp) == ():
         return ()
+    if HAS_PY_312 and isinstance(tp, typing.TypeAliasType):  # type: ignore[attr-defined]
+        return ()  # parameters of bare `type Alias[T] = ...` are its own declaration, not free variables
     return params
 
 
